@@ -6,11 +6,16 @@ Tie:    declaration route (scalar / vector / matrix, slices, rows, columns, sub-
         through the real `Problem.solve` / `solve_scipy` / `solve_lp` with the solver seams instrumented
         (every solver call is an event), warnings captured and parsed; outcome + events + state compared
         exactly with `Py.Solve.solve*`; element lists of every route compared with `Py.Solve` constructors.
+        + the BOUNDS of the variables of the problems the guard is tested on (`bounds_guard_cases`): crossed / pinned /
+        open / infinite / huge / non-integral intervals × on a non-continuous variable, on all of them, on an unrelated
+        continuous variable, on every variable × declared / assigned after modelling / assigned between two solves and
+        restored (branch-and-bound style) × route × method × strict × call site.
 Oracle: independent of the model — strict ⇒ an exception is raised (IntegerVariableError listing exactly the
         non-continuous variables; NonLinearError when an LP method is forced on a nonlinear problem) and no
         solver call happened; non-strict ⇒ every solver call is preceded by a warning naming exactly those
-        variables, and solver inputs + solution equal those of the same problem with all domains set to
-        "continuous"; every element reachable through any route of a binary declaration has lb = 0, ub = 1,
+        variables — and a non-strict solve that returns HAS warned, naming them, also when no solver was called
+        (whatever the bounds are) —, and solver inputs + solution equal those of the same problem with all domains
+        set to "continuous"; every element reachable through any route of a binary declaration has lb = 0, ub = 1,
         and views share the element objects of their base.
 """
 from __future__ import annotations
@@ -57,7 +62,7 @@ def route_recipes(rng, thorough):
     return recs
 
 
-def problem_from(recipe, kind, relax=False):
+def problem_from(recipe, kind, relax=False, t_bounds=(0.0, 1.0), out=None):
     """a problem over the elements of the handle (+ one continuous scalar `t`); `relax`: the same
     problem with every domain attribute set to "continuous" after construction (bounds untouched)"""
     from optyx import Problem, Variable
@@ -67,7 +72,9 @@ def problem_from(recipe, kind, relax=False):
     for v in hd.handle_elements(h):
         if all(v is not e for e in elems):
             elems.append(v)
-    t = Variable("t", lb=0.0, ub=1.0)
+    t = Variable("t", lb=t_bounds[0], ub=t_bounds[1])
+    if out is not None:
+        out["t"] = t
     if relax:
         for v in elems:
             v.domain = "continuous"
@@ -464,6 +471,227 @@ def sole_view_cases(rep, rng, recs, thorough, with_model=True, every=False):
             rep.nontrivial.add(hash(("sole", meta["recipe"], meta["kind"], meta["method"], meta["strict"])))
 
 
+# ----------------------------------------------------------------------------- the BOUNDS of the variables the guard sees
+# The guard is about DOMAINS; the bounds of the variables (of the non-continuous ones or of any other variable of the
+# problem) are solver data and never a reason to skip it.  Every bound interval class × where it sits × how it got
+# there (declared, assigned after the model was written, assigned between two solves: branch-and-bound style) ×
+# declaration route × method × strict × call site.
+
+INF = float("inf")
+LP_METHODS = ("linprog", "highs", "highs-ds", "highs-ipm")
+
+
+def bound_profiles():
+    """(tag, lb, ub, class)"""
+    import numpy as np
+
+    return [
+        ("crossed-int", 4, 3, "crossed"),                     # k >= 4 on a node that already has k <= 3
+        ("crossed-float", 1.0, -1.0, "crossed"),
+        ("crossed-frac", 0.75, 0.25, "crossed"),
+        ("crossed-0-1", 1, 0, "crossed"),                     # a binary fixed to 1 below a node that fixed it to 0
+        ("crossed-by-1e-9", 1e-9, 0.0, "crossed"),
+        ("crossed-huge", 1e16, -1e16, "crossed"),
+        ("crossed-np", np.int64(5), np.float32(2.5), "crossed"),
+        ("crossed-inf", INF, -INF, "crossed"),
+        ("crossed-lb-inf", INF, 3.0, "crossed"),
+        ("pinned-int", 2, 2, "pinned"),
+        ("pinned-frac", 2.5, 2.5, "pinned"),
+        ("pinned-zero", 0.0, 0.0, "pinned"),
+        ("pinned-signed-zero", 0.0, -0.0, "pinned"),
+        ("pinned-np", np.float64(1.0), np.int32(1), "pinned"),
+        ("pinned-huge", 1e16, 1e16, "pinned"),
+        ("none", None, None, "open"),
+        ("infinite", -INF, INF, "open"),
+        ("lower-only", -2.5, None, "open"),
+        ("upper-only", None, 3, "open"),
+        ("upper-only-inf", -INF, 7.5, "open"),
+        ("huge", -1e16, 1e16, "box"),
+        ("beyond-1e16", -1e18, 1e18, "box"),
+        ("non-integral", 0.3, 2.7, "box"),
+        ("no-integer-inside", 0.25, 0.75, "box"),
+        ("negative", -7.5, -1.5, "box"),
+        ("unit", 0, 1, "box"),
+        ("bool", False, True, "box"),
+        ("tiny", 0.0, 1e-12, "box"),
+    ]
+
+
+BG_SITES = ["own-one", "own-all", "other", "all"]     # one non-continuous element / all of them / the continuous `t` / every variable
+BG_HOWS = ["declared", "edited", "between"]
+BG_SANE = {"integer": (0, 10), "binary": (None, None), "continuous": (0.0, 4.0)}
+
+
+def rebound(r, lb, ub):
+    """the recipe with the bounds of its base declaration replaced"""
+    k = r[0]
+    if k == "var":
+        return (k, r[1], lb, ub, r[4])
+    if k == "vec":
+        return (k, r[1], r[2], lb, ub, r[5])
+    if k == "mat":
+        return (k, r[1], r[2], r[3], lb, ub) + tuple(r[6:])
+    return (k, rebound(r[1], lb, ub)) + tuple(r[2:])
+
+
+def bounds_guard_routes(recs, per=1):
+    """one route per (view kind, base kind, non-continuous domain) with at least one element, base bounds normalised"""
+    out, seen, cnt = [], set(), {}
+    for r in recs:
+        b = hd.base_of(r)
+        dom = b[-2] if b[0] == "mat" else b[-1]
+        if dom == "continuous":
+            continue
+        key = (r[0], b[0], dom)
+        if cnt.get(key, 0) >= per:
+            continue
+        r2 = rebound(r, *BG_SANE[dom])
+        if r2 in seen:
+            continue
+        try:
+            if not hd.handle_elements(hd.build_handle(r2)):
+                continue
+        except Exception:  # noqa: BLE001
+            continue
+        seen.add(r2)
+        cnt[key] = cnt.get(key, 0) + 1
+        out.append(r2)
+    return out
+
+
+def bounds_guard_build(c, relax=False):
+    """-> (P, targets, (lb, ub)): the problem of case `c` before any edit; targets = the Variable objects the profile is about"""
+    prof = {p[0]: p for p in bound_profiles()}[c["profile"]]
+    lb, ub = prof[1], prof[2]
+    declared = c["how"] == "declared"
+    own = c["site"] in ("own-one", "own-all", "all")
+    other = c["site"] in ("other", "all")
+    r = _tup(c["recipe"])
+    if declared and own:
+        r = rebound(r, lb, ub)
+    out = {}
+    P, elems = problem_from(r, c["kind"], relax=relax, t_bounds=(lb, ub) if declared and other else (0.0, 1.0), out=out)
+    b = hd.base_of(r)
+    dom = b[-2] if b[0] == "mat" else b[-1]
+    nc = [v for v in elems if not v.name.startswith("_diag_")] or elems
+    targets = []
+    if c["site"] == "own-one":
+        targets = [nc[c["pick"] % len(nc)]]
+    elif own:
+        targets = list(elems)
+    if other:
+        targets.append(out["t"])
+    return P, targets, (lb, ub), dom
+
+
+def bounds_guard_history(c, upto=None, with_model=False, lines=None, echo=False):
+    """run the history of case `c` on the real code (solver seams stubbed); every step is judged by `judge`; the
+    non-strict steps of an all-non-strict prefix are also compared with the same history on the continuous twin.
+    -> list of (step meta, observed text, failure or None)"""
+    P, targets, (lb, ub), dom = bounds_guard_build(c)
+    twin = bounds_guard_build(c, relax=True)
+    saved = [(v.lb, v.ub) for v in targets]
+    tsaved = [(v.lb, v.ub) for v in twin[1]]
+    res = []
+    twin_ok = True
+    for step, stp in enumerate(c["steps"]):
+        if upto is not None and step > upto:
+            break
+        for (PP, tg, sv) in ((P, targets, saved), (twin[0], twin[1], tsaved)):
+            if stp["edit"] == "profile":
+                for v in tg:
+                    v.lb, v.ub = lb, ub
+            elif stp["edit"] == "restore":
+                for v, (l0, u0) in zip(tg, sv):
+                    v.lb, v.ub = l0, u0
+        m, strict, call = stp["method"], stp["strict"], stp["call"]
+        D = domain_set(P)
+        r1, r2 = results_for(P, c["variant"])
+        lr = base.LRes(True, 0, [0.5] * len(P.variables), 1.0, 3)
+        if with_model and lines is not None:
+            lines.append(base.model_line(call, P, m, strict, True, None, r1, r2, lr, None))
+        text, info = base.observe(P, call, m, strict, True, None, r1, r2, lr)
+        if echo:
+            print(f"step {step} edit={stp['edit']} call={call} method={m} strict={strict} bounds="
+                  f"{[(v.name, v.lb, v.ub) for v in P.variables]}:", text[:300])
+        meta = dict(c, method=m, strict=strict, call=call, step=step)
+        bad = judge(meta, text, info, D, dom)
+        twin_ok = twin_ok and not strict
+        if twin_ok:
+            text2, _ = base.observe(twin[0], call, m, False, True, None, r1, r2, lr)
+            if bad is None and D and not text.startswith("raise") and strip_warn(text) != text2:
+                bad = {"what": "solver inputs / solution differ from those of the continuous relaxation",
+                       "with_domains": strip_warn(text)[:500], "relaxed": text2[:500]}
+        if bad is not None:
+            bad.update({"kind_of_case": "boundsguard", "case": meta,
+                        "bounds_at_the_solve": [[v.name, repr(v.lb), repr(v.ub), v.domain] for v in P.variables]})
+        res.append((meta, text, bad))
+    return res
+
+
+def bounds_guard_cases(rep, rng, recs, thorough, with_model=True, first_only=False):
+    """bound interval class (crossed / pinned / open / infinite / huge / non-integral …) × site (a non-continuous
+    variable, all of them, an unrelated continuous variable, every variable) × how (declared / assigned after the model
+    was written / assigned between two solves and restored) × route × method × strict × call site: strict raises
+    IntegerVariableError naming exactly the non-continuous variables before any solver call, non-strict warns naming them"""
+    routes = bounds_guard_routes(recs, 2 if thorough else 1)
+    if not routes:
+        return
+    profiles = bound_profiles()
+    off = rng.randrange(30)
+    lines, metas = [], []
+    ci = 0
+    for tag, lb, ub, cls in profiles:
+        q = 1 if thorough else {"crossed": 3, "pinned": 4}.get(cls, 6)
+        for site in BG_SITES:
+            for how in BG_HOWS:
+                ci += 1
+                for si, strict in enumerate((False, True)):
+                    for mi, method in enumerate(METHODS):
+                        if (ci + 15 * si + mi + off) % q:
+                            continue
+                        r = rng.choice(routes)
+                        if how == "declared" and site != "other" and rng.random() < 0.8:
+                            # a binary declaration ends at [0, 1] whatever was passed: mostly integer routes here
+                            ints = [x for x in routes if (hd.base_of(x)[-2] if hd.base_of(x)[0] == "mat" else hd.base_of(x)[-1]) == "integer"]
+                            r = rng.choice(ints or routes)
+                        lp = method in LP_METHODS
+                        kind = rng.choice(["lin", "lin+c", "lin", "lin+c", "nl"] if lp else ["lin", "lin+c", "nl", "nl+c", "nl-max"])
+                        call, m = "solve", method
+                        if rng.random() < 0.25:
+                            call = "solve-lp" if lp else "solve-scipy"
+                            m = None if (lp and method == "linprog") else "SLSQP" if method == "auto" else method
+                        steps = []
+                        if how == "between":
+                            # the first solve sees sane bounds (and, when it is not strict, warms every cache)
+                            m0 = rng.choice(SEQ_LP if kind.startswith("lin") and rng.random() < 0.6 else SEQ_NLP)
+                            steps.append({"edit": None, "method": m0, "strict": rng.random() < 0.3, "call": "solve"})
+                        steps.append({"edit": None if how == "declared" else "profile", "method": m, "strict": strict, "call": call})
+                        if how == "between" and rng.random() < 0.5:
+                            steps.append({"edit": "restore", "method": rng.choice(METHODS), "strict": rng.random() < 0.5, "call": "solve"})
+                        c = {"recipe": r, "kind": kind, "profile": tag, "class": cls, "site": site, "how": how,
+                             "pick": rng.randrange(12), "variant": rng.randrange(3), "steps": steps}
+                        for meta, text, bad in bounds_guard_history(c, with_model=with_model, lines=lines):
+                            metas.append((meta, text))
+                            if bad is not None:
+                                rep.oracle_failures.append(bad)
+                                if first_only:
+                                    return
+    rep.evaluations += len(metas)
+    outs = run_lean_unit(lines) if with_model else []
+    for (meta, text), model in zip(metas, outs):
+        if text != model:
+            rep.corr_mismatches.append({"case": meta, "impl": text[:700], "model": model[:700]})
+    for meta, text in metas:
+        outc = text.split(":")[1].split(" ")[0] if text.startswith("raise") else "returns"
+        for k in (f"boundsguard:{meta['profile']}:{'strict' if meta['strict'] else 'relax'}:{outc}",
+                  f"boundsguard-site:{meta['site']}:{meta['how']}:step{meta['step']}"):
+            rep.histogram[k] = rep.histogram.get(k, 0) + 1
+        if "warn-relax" in text or "IntegerVariableError" in text:
+            rep.nontrivial.add(hash(("boundsguard", meta["profile"], meta["site"], meta["how"], meta["method"],
+                                     meta["strict"], meta["call"], meta["step"], meta["recipe"], meta["kind"])))
+
+
 def strip_warn(text):
     out, events, state = text.split(" | ")
     depth, cur, evs = 0, "", []
@@ -539,6 +767,11 @@ def judge(meta, text, info, D, dom):
                 return {"what": "the warning does not name exactly the non-continuous variables",
                         "warning": last_warn[:300], "expected": want_names[:300]}
             last_warn = None
+    if info.get("exception") is None and not any(w.endswith(" " + want_names + ")") for w in warns):
+        # the property, whatever the path taken: a solve that RETURNS for a problem with integer / binary
+        # variables has warned, naming them (also when it returns without having called any solver)
+        return {"what": "strict=False returned a solution for a problem with integer/binary variables without "
+                        "a warning naming exactly those variables", "observed": text[:400], "expected": want_names[:300]}
     return None
 
 
@@ -583,7 +816,9 @@ def run(ctx) -> core.Report:
     rep = core.Report(rule="every construction route of the cell cover × 12 methods × strict (problem kind, call site and "
                            "stub result variant cycle so that each occurs with every method), + sampled random route "
                            "compositions; non-trivial = distinct (route, method, strict, kind, call) where the guard acted; "
-                           "bounds: every route × 3 domains")
+                           "bounds: every route × 3 domains; bounds-guard: 28 bound intervals (crossed / pinned / open / infinite / "
+                           "huge / non-integral) × 4 sites × 3 ways of setting them × methods × strict (every interval "
+                           "meets every method and both modes)")
     recs = route_recipes(rng, thorough)
     hd.handle_cases(rep, recs)
     bounds_cases(rep, recs)
@@ -600,6 +835,7 @@ def run(ctx) -> core.Report:
     sole_view_cases(rep, rng, pick_views(recs, 2 if thorough else 1), thorough)
     sequence_cases(rep, rng, guard_recs, thorough)
     lifetime_cases(rep, rng, thorough)
+    bounds_guard_cases(rep, rng, guard_recs, thorough)
     rep.exhaustive = True
     return rep
 
@@ -628,6 +864,9 @@ def search(ctx, rep):
             break
     recs = route_recipes(rng, False)
     bounds_cases(r2, recs)
+    if r2.oracle_failures:
+        return r2.oracle_failures[0]
+    bounds_guard_cases(r2, rng, recs, False, with_model=False, first_only=True)
     if r2.oracle_failures:
         return r2.oracle_failures[0]
     # the oracle half only (the model is not consulted by `judge`)
@@ -688,6 +927,12 @@ def replay(payload) -> bool:
             text2, _ = base.observe(P2, "solve", c["method"], False, True, None, r1, r2, lr)
             if strip_warn(text) != text2:
                 bad = {"what": "differs from the continuous relaxation", "relaxed": text2}
+        print(bad)
+        return bad is None
+    if f.get("kind_of_case") == "boundsguard":
+        c = f["case"]
+        res = bounds_guard_history(c, upto=c["step"], echo=True)
+        bad = res[-1][2] if res else None
         print(bad)
         return bad is None
     if f.get("kind_of_case") == "sequence":
